@@ -193,10 +193,11 @@ Lemma m_cond_mv : forall ev, mvsafe ev -> forall cs st v st',
 Proof.
   intros ev Hev. induction cs as [|[c b] cs IH]; intros st v st' L H; cbn in H.
   - inv H. discriminate.
-  - cbn in L. apply andb_true_iff in L. destruct L as [L1 L2].
-    destruct (ev c st) as [o st1]. destruct o; try discriminate.
+  - cbn in L. apply andb_true_iff in L. destruct L as [L1 L2]. apply andb_true_iff in L1. destruct L1 as [L1 L0].
+    destruct (ev c st) as [o st1] eqn:Ec. destruct o; try discriminate.
     destruct (is_nil v0); [eapply IH; eauto|].
-    eapply m_progn_mv; [exact Hev | | exact L1 | exact H]; reflexivity.
+    eapply (m_seq_mv ev never Hev eq_refl b v0 st1 v st' L1); [|exact H].
+    intros ->. eapply Hev; [exact L0 | exact Ec].
 Qed.
 
 Lemma m_items_none : forall ev evt items skip st r st',
@@ -439,7 +440,7 @@ Section Rel.
         { pose proof (Hmv _ _ _ _ Gd EM) as NV. destruct vm; cbn in *; try congruence. }
         subst vm. destruct (is_nil v).
         * eapply IH; eauto.
-        * destruct b; [discriminate|]. eapply progn_rel; eauto.
+        * destruct b; [discriminate|]. change (m_seq em never (f :: b) v st1) with (m_seq em never (f :: b) VNil st1). eapply progn_rel; eauto.
       + subst r0. inv HS. eexists. split; [reflexivity|]. split; [reflexivity | exact I].
       + subst r0. inv HS. eexists. split; [reflexivity|]. split; [reflexivity | exact I].
       + congruence.
